@@ -11,7 +11,7 @@ ID = "C15"
 RULE = (
     "Hypothesis draws a uniform passive cable (radius 0.5-5 um, Ra 50-500 ohm cm, g 1e-5..1e-3 S/cm2, cm 0.5-2 uF/cm2, length "
     "0.2-3 length constants, resting potential, stimulus amplitude), its realisation (one branch, or a chain of 2 or 4 branches "
-    "joined at branch points), a backend, and one of three experiments: (space) steady state under a constant current into the "
+    "joined at branch points, or two branches of unequal length with equally many compartments), a backend, and one of three experiments: (space) steady state under a constant current into the "
     "first compartment vs the sealed-cable Green's function on the ladder ncomp = n0*2^k, k=0..4; (time-RC) relaxation of a "
     "single compartment vs E + (V0-E)exp(-t/tau) on dt = dt0/2^k for bwd_euler and crank_nicolson; (time-mode) decay of the first "
     "cosine eigenmode of a 16- or 32-compartment cable on the same dt ladder (discrete-space eigenvalue, so only the time error "
@@ -49,6 +49,9 @@ def _spec(draw, tier):
         "experiment": draw(st.sampled_from(["space", "space", "time-rc", "time-mode"])),
         "backend": draw(st.sampled_from(["jaxley.stone", "jaxley.thomas", "jax.sparse"])),
         "T_over_tau": draw(fl(0.2, 1.0)), "nmode": draw(st.sampled_from([16, 32])),
+        # space experiment only: the cable may be cut into two branches of UNEQUAL length with the same number of
+        # compartments each (compartments of different length meet at the branch point)
+        "split": draw(st.one_of(st.none(), st.none(), fl(0.2, 0.8))),
     }
 
 
@@ -60,19 +63,25 @@ def size(spec):
     return (core.spec_size(spec),)
 
 
-def cable(spec, n, chain=1, v=None):
+def cable(spec, n, chain=1, v=None, split=None):
     import jaxley as jx
     from jaxley.channels import Leak
 
     lam = lam_um(spec)
     L = spec["L_over_lambda"] * lam
     comp = jx.Compartment()
-    if chain == 1 or n % chain != 0 or n // chain < 1:
+    if split is not None and n % 2 == 0:
+        br = jx.Branch([comp] * (n // 2))
+        m = jx.Cell([br, br], parents=[-1, 0])
+        h = np.concatenate([np.full(n // 2, split * L / (n // 2)), np.full(n // 2, (1 - split) * L / (n // 2))])
+        m.set("length", h)
+    elif chain == 1 or n % chain != 0 or n // chain < 1:
         m = jx.Branch([comp] * n)
+        m.set("length", L / n)
     else:
         br = jx.Branch([comp] * (n // chain))
         m = jx.Cell([br] * chain, parents=[-1] + list(range(chain - 1)))
-    m.set("length", L / n)
+        m.set("length", L / n)
     m.set("radius", spec["radius"])
     m.set("axial_resistivity", spec["ra"])
     m.set("capacitance", spec["cm"])
@@ -103,6 +112,8 @@ def judge(spec, tier="quick"):
     key = core.h(spec)
     out.classes.append(exp)
     out.classes.append(f"chain{spec['chain']}")
+    if exp == "space" and spec.get("split") is not None:
+        out.classes.append("unequal branches")
     nontriv = spec["L_over_lambda"] > 0.5
 
     def run(m, **kw):
@@ -113,13 +124,14 @@ def judge(spec, tier="quick"):
         errs, peak = [], None
         for k in range(5):
             n = spec["n0"] * 2**k
-            m, L = cable(spec, n, spec["chain"])
+            m, L = cable(spec, n, spec["chain"], split=spec.get("split"))
             (m.select(nodes=[0]) if n > 1 else m).stimulate(spec["amp"] * jnp.ones(6), verbose=False)
             res, err = core.call(run, m, delta_t=1e7)
             if err:
                 out.violate("raises", f"space ladder n={n} raised {err.short()}", etype=err.etype, frame=err.frame)
                 return out
-            x = (np.arange(n) + 0.5) * L / n
+            h = m.nodes["length"].to_numpy(float)
+            x = np.cumsum(h) - h / 2.0
             ref = R4.sealed_cable_green(x, x[0], L, lam, spec["radius"], spec["ra"], spec["amp"])
             got = res[:, -1] - spec["E"]
             errs.append(float(np.max(np.abs(got - ref))))
@@ -133,7 +145,7 @@ def judge(spec, tier="quick"):
             out.nontrivial_keys.append(key)
         if ok_round and not all(1.6 <= q <= 2.6 for q in p[-2:]):
             out.violate("space-order", f"steady state vs Green's function, ncomp={[spec['n0'] * 2**k for k in range(5)]}: errors {errs} mV, "
-                        f"orders {p} (expected 2); lambda={lam:.1f} um, L/lambda={spec['L_over_lambda']:.2f}, chain={spec['chain']}, backend={spec['backend']}")
+                        f"orders {p} (expected 2); lambda={lam:.1f} um, L/lambda={spec['L_over_lambda']:.2f}, chain={spec['chain']}, split={spec.get('split')}, backend={spec['backend']}")
             return out
         if errs[-1] > 0.02 * peak * (spec["L_over_lambda"] / (spec["n0"] * 16)) ** 2 * 50 + 1e-9:
             out.violate("space-error", f"finest rung (ncomp={spec['n0'] * 16}) error {errs[-1]:.3e} mV for a response of {peak:.3e} mV: not converging to the "
